@@ -778,6 +778,102 @@ func genTablesFor(repo, out, pkgDir, fileName string, shared []string) error {
 		sort.Strings(rs)
 		fmt.Fprintf(&b, "Definition call_lock_table : list (string * string * list string) := [\n  %s\n].\n\n", strings.Join(rs, ";\n  "))
 	}
+	// channels signalled by a non-blocking send (a select whose only case is `x.f <- v`, with a default), with the
+	// capacity expression of every make() that initialises a field / variable of that name
+	{
+		makes := map[string][]string{}
+		noteMake := func(name string, v ast.Expr) {
+			c, ok := v.(*ast.CallExpr)
+			if !ok {
+				return
+			}
+			id, ok := c.Fun.(*ast.Ident)
+			if !ok || id.Name != "make" || len(c.Args) == 0 {
+				return
+			}
+			if _, ok := c.Args[0].(*ast.ChanType); !ok {
+				return
+			}
+			capStr := "0"
+			if len(c.Args) > 1 {
+				capStr = exprStr(p, c.Args[1])
+			}
+			makes[name] = append(makes[name], capStr)
+		}
+		type sigRow struct{ fn, ch string }
+		var sigs []sigRow
+		for _, f := range p.files {
+			for _, d := range f.Decls {
+				fd, ok := d.(*ast.FuncDecl)
+				if !ok || fd.Body == nil {
+					continue
+				}
+				name, _, _ := funcKey(fd)
+				ast.Inspect(fd.Body, func(n ast.Node) bool {
+					switch x := n.(type) {
+					case *ast.KeyValueExpr:
+						if k, ok := x.Key.(*ast.Ident); ok {
+							noteMake(k.Name, x.Value)
+						}
+					case *ast.AssignStmt:
+						if len(x.Lhs) == 1 && len(x.Rhs) == 1 {
+							switch l := x.Lhs[0].(type) {
+							case *ast.Ident:
+								noteMake(l.Name, x.Rhs[0])
+							case *ast.SelectorExpr:
+								noteMake(l.Sel.Name, x.Rhs[0])
+							}
+						}
+					case *ast.SelectStmt:
+						hasDefault := false
+						var sends []string
+						other := 0
+						for _, cc := range x.Body.List {
+							c := cc.(*ast.CommClause)
+							if c.Comm == nil {
+								hasDefault = true
+								continue
+							}
+							if ss, ok := c.Comm.(*ast.SendStmt); ok {
+								switch ch := ss.Chan.(type) {
+								case *ast.SelectorExpr:
+									sends = append(sends, ch.Sel.Name)
+								case *ast.Ident:
+									sends = append(sends, ch.Name)
+								default:
+									sends = append(sends, "?")
+								}
+							} else {
+								other++
+							}
+						}
+						if hasDefault && other == 0 && len(sends) == 1 {
+							sigs = append(sigs, sigRow{name, sends[0]})
+						}
+					}
+					return true
+				})
+			}
+		}
+		var rs []string
+		seen := map[string]bool{}
+		for _, sg := range sigs {
+			caps := makes[sg.ch]
+			if len(caps) == 0 {
+				caps = []string{"?"}
+			}
+			for _, c := range caps {
+				r := fmt.Sprintf("(%s, %s, %s)", coqStr(sg.fn), coqStr(sg.ch), coqStr(c))
+				if !seen[r] {
+					seen[r] = true
+					rs = append(rs, r)
+				}
+			}
+		}
+		sort.Strings(rs)
+		b.WriteString("(* every channel that is signalled with a non-blocking send (select { case ch <- v: default: }):\n   function, channel, capacity expression of each make() of a channel of that name *)\n")
+		fmt.Fprintf(&b, "Definition signal_table : list (string * string * string) := [\n  %s\n].\n\n", strings.Join(rs, ";\n  "))
+	}
 	sort.Strings(funcs)
 	fmt.Fprintf(&b, "Definition function_table : list string := %s.\n", coqStrList(funcs))
 	path := filepath.Join(out, fileName)
